@@ -26,7 +26,13 @@ type SimNet struct {
 	basePort  int
 	// dialBlock: key client|broker -> dials fail until this time.
 	dialBlock map[string]time.Time
-	latMode   int64
+	// dialHang: key client|-1 -> dials neither succeed nor fail until this
+	// time or the dial context ends (an unreachable host).
+	dialHang    map[string]time.Time
+	dialTimeout time.Duration
+	// blackholeNew: connections dialled by this client are accepted but never answered
+	blackholeNew map[string]bool
+	latMode      int64
 	// onServerWrite is called (from the broker's writer goroutine) for every
 	// complete frame a broker writes, before any fault can touch it.
 	onServerWrite func(c *Conn, frame []byte)
@@ -35,7 +41,7 @@ type SimNet struct {
 }
 
 func NewSimNet(seed uint64, basePort int) *SimNet {
-	return &SimNet{seed: seed, listeners: map[string]*simListener{}, activity: make(chan struct{}, 1), basePort: basePort, dialBlock: map[string]time.Time{}, nextOrd: map[string]int{}}
+	return &SimNet{seed: seed, listeners: map[string]*simListener{}, activity: make(chan struct{}, 1), basePort: basePort, dialBlock: map[string]time.Time{}, dialHang: map[string]time.Time{}, blackholeNew: map[string]bool{}, nextOrd: map[string]int{}}
 }
 
 func (n *SimNet) poke() {
@@ -356,6 +362,23 @@ func (n *SimNet) dial(ctx context.Context, client, address string) (net.Conn, er
 	if until, ok := n.dialBlock[client+"|-1"]; ok && time.Now().Before(until) {
 		l = nil
 	}
+	if until, ok := n.dialHang[client+"|-1"]; ok && time.Now().Before(until) {
+		n.mu.Unlock()
+		// a dialer has a time-out of its own (net.Dialer.Timeout; kgo's
+		// default dialer uses DialTimeout = 10s)
+		d := time.Until(until)
+		if n.dialTimeout > 0 && d > n.dialTimeout {
+			d = n.dialTimeout
+		}
+		t := time.NewTimer(d)
+		defer t.Stop()
+		select {
+		case <-ctx.Done():
+			return nil, ctx.Err()
+		case <-t.C:
+			return nil, fmt.Errorf("dial %s: i/o timeout", address)
+		}
+	}
 	if l == nil {
 		n.mu.Unlock()
 		return nil, fmt.Errorf("dial %s: connection refused", address)
@@ -367,6 +390,7 @@ func (n *SimNet) dial(ctx context.Context, client, address string) (net.Conn, er
 	c := &Conn{ID: id, Client: client, Broker: b, Addr: address, Name: fmt.Sprintf("%s#%d", key, ord), outstanding: map[int32]*reqInfo{}, fab: map[int32][]byte{}}
 	c.c2s = newHalf(n, c, c.Name+":c2s", true)
 	c.s2c = newHalf(n, c, c.Name+":s2c", false)
+	c.blackhole = n.blackholeNew[client]
 	n.conns = append(n.conns, c)
 	n.mu.Unlock()
 	cli := &simConn{conn: c, rd: c.s2c, wr: c.c2s, local: fmt.Sprintf("%s:%d", client, id), remote: address}
